@@ -607,36 +607,13 @@ theorem count_refines (c : Codec V) (vo : ValOps V) (hL : 0 < c.w) (d : Bits) (v
     | false => rfl
     | true => exact absurd h hnan
 
-/-- `count(nan)` counts the NaN items (documented) — when the items are numbers, i.e. outside the region
-    `count_nan_nonnumeric`.  Full statement (no `hreg`) fails on the pinned tree: see `count_nan_nonnumeric_witness`. -/
-theorem count_nan_partial (c : Codec V) (vo : ValOps V) (hL : 0 < c.w) (d : Bits) (value : V)
-    (hnan : vo.isnan value = .ok true) (hreg : count_nan_nonnumeric vo (items c d) = false) :
+/-- `count(nan)` counts the NaN items (documented), on every dtype: an item `math.isnan` cannot take is not NaN. -/
+theorem count_nan (c : Codec V) (vo : ValOps V) (hL : 0 < c.w) (d : Bits) (value : V)
+    (hnan : vo.isnan value = .ok true) :
     count c vo d value = .ok ((items c d).countP fun i => match vo.isnan i with | .ok b => b | .error _ => false) := by
   unfold count
-  simp only [hnan, iter_eq_items c hL d, if_true]
-  have hm : (items c d).mapM vo.isnan
-      = .ok ((items c d).map fun i => match vo.isnan i with | .ok b => b | .error _ => false) := by
-    apply mapM_except_ok
-    intro i hi
-    unfold count_nan_nonnumeric at hreg
-    rw [List.any_eq_false] at hreg
-    have := hreg i hi
-    cases h : vo.isnan i with
-    | ok b => rfl
-    | error e => simp [h] at this
-  rw [hm]
-  simp only [List.countP_map]
+  simp only [hnan, iter_eq_items c hL d]
   rfl
-
-/-- Known finding `count-nan-nonnumeric`: `Array('hex4', ['e']).count(float('nan'))` raises TypeError
-    (`math.isnan('e')`), `['e'].count(nan)` is 0. -/
-theorem count_nan_nonnumeric_witness :
-    let c := mkCodec .raw "hex" 4 1 .other false
-    let vo : ValOps Val := { isnan := fun v => if v == .bad then .ok true else .error .type, eq := fun a b => a == b }
-    count_nan_nonnumeric vo (items c [true, true, true, false]) = true ∧
-    count c vo [true, true, true, false] .bad = .error .type ∧
-    (items c [true, true, true, false]).countP (fun i => vo.eq i .bad) = 0 := by
-  decide
 
 /-- `equals`: same dtype and same data; for a canonical codec that is "same items and same trailing bits". -/
 theorem equals_iff (c c2 : Codec V) (d d2 : Bits) :
